@@ -236,6 +236,30 @@ func (e *UMultiCause) Error() string {
 }
 func (e *UMultiCause) Unwrap() []error { return e.Causes }
 
+// UMultiCauser: like UMultiCause, and it really has the Cause()
+// method (returning its first cause). The library then sees it both
+// as a single-cause wrapper and as a multi-cause error; only the
+// differential checks against the standard library use it.
+type UMultiCauser struct {
+	Msg    string
+	Causes []error
+}
+
+func (e *UMultiCauser) Error() string {
+	s := e.Msg
+	for _, c := range e.Causes {
+		s += "; " + c.Error()
+	}
+	return s
+}
+func (e *UMultiCauser) Unwrap() []error { return e.Causes }
+func (e *UMultiCauser) Cause() error {
+	if len(e.Causes) == 0 {
+		return nil
+	}
+	return e.Causes[0]
+}
+
 // ULeafAs: leaf with an As method: it can be seen as a *ULeafPtr
 // carrying the same message.
 type ULeafAs struct {
